@@ -142,6 +142,17 @@ theorem target_dispatch_cases {t : DevTree} (hw : wfTree t = true) (st : Str) :
     simp [expected, expectedBase, h1, h2] at this
     omega
 
+/-- **options are read by truthiness**: an always-root option that is present but falsy (`False`,
+    `None`, `0`, `""`) is the option absent — `target_dispatch` with `ar := o.isSet` then prescribes
+    no extra root answer; only a truthy value adds it (the harness generates all three states, `None`
+    / empty / filled option dicts and unrelated keys, for responder and announcer) -/
+theorem option_by_truthiness (t : DevTree) (st : Str) :
+    buildResponses t OptVal.falsy.isSet st = buildResponses t OptVal.absent.isSet st
+    ∧ buildResponses t OptVal.truthy.isSet st = buildResponses t OptVal.absent.isSet st ++ [respRoot t] := by
+  constructor
+  · rfl
+  · simp [buildResponses, OptVal.isSet]
+
 /-! ### once, in the window, to the requester -/
 
 /-- **sent once, inside the MX window**: for constants of the shape `gen_consts_ok` establishes, a
